@@ -129,7 +129,7 @@ Proof.
         match type of Hfs with match ?x with _ => _ end = _ => destruct x as [r'|] eqn:R; [|discriminate] end.
         inversion Hfs; subst. cbn [forallb snd]. rewrite (IHr r' eq_refl), andb_true_r.
         specialize (Hf sf eq_refl).
-        destruct (omit_empty (GF fname exported json bq ft) && negb (is (gs_type sf) "union"));
+        match goal with |- gs_normal (if ?c then _ else _) = true => destruct c end;
           [apply gs_nullable_normal; exact Hf|exact Hf]. }
     match type of H with
     | option_map _ (?g fields) = _ => destruct (g fields) as [fs|] eqn:E; [|discriminate]
@@ -148,6 +148,6 @@ Qed.
 
 Lemma sreg_std_normal : reg_normal sreg_std.
 Proof.
-  intros id s. unfold sreg_std.
-  repeat match goal with |- context [if ?c then _ else _] => destruct c end; intros H; inversion H; reflexivity.
+  intros id s H. unfold sreg_std in H.
+  destruct id as [w|n]; [destruct w|]; inversion H; reflexivity.
 Qed.
